@@ -59,6 +59,11 @@ type N struct {
 
 func (N) M() N { return N{} }
 
+type G[T any] struct {
+	v  T
+	ok bool
+}
+
 var vn N
 var bs []bool
 var p bool
@@ -84,6 +89,9 @@ func (e *hx) render(protect bool) string {
 		s := "N{v: 1}"
 		if e.T == "Pt" {
 			s = "image.Point{X: 1}"
+		}
+		if e.T == "G" {
+			s = "G[int]{v: 1}"
 		}
 		if protect {
 			return "(" + s + ")"
@@ -157,6 +165,7 @@ type hdrBuilder struct {
 	pkg  *gogen.Package
 	errs []string
 	tN   *types.Named
+	tG   types.Type
 	tPt  types.Type
 	n    int
 }
@@ -174,6 +183,9 @@ func newHdrBuilder() *hdrBuilder {
 	hb.tN = tN
 	par := func(n string, t types.Type) *types.Var { return types.NewParam(token.NoPos, pkg.Types, n, t) }
 	pkg.NewFunc(par("", tN), "M", nil, types.NewTuple(par("", tN)), false).BodyStart(pkg).StructLit(tN, 0, false).Return(1).End()
+	tp := types.NewTypeParam(types.NewTypeName(token.NoPos, pkg.Types, "T", nil), types.Universe.Lookup("any").Type())
+	gdecl := pkg.NewType("G").InitType(pkg, types.NewStruct([]*types.Var{fld("v", tp), fld("ok", tb)}, nil), tp)
+	hb.tG = pkg.Instantiate(gdecl, []types.Type{ti})
 	hb.tPt = pkg.Import("image").Ref("Point").Type()
 	pkg.NewVar(token.NoPos, tN, "vn")
 	pkg.NewVar(token.NoPos, types.NewSlice(tb), "bs")
@@ -207,6 +219,8 @@ func (hb *hdrBuilder) expr(cb *gogen.CodeBuilder, e *hx) {
 	case "lit":
 		if e.T == "Pt" {
 			cb.Val(0).Val(1).StructLit(hb.tPt, 2, true)
+		} else if e.T == "G" {
+			cb.Val(0).Val(1).StructLit(hb.tG, 2, true)
 		} else {
 			cb.Val(0).Val(1).StructLit(hb.tN, 2, true)
 		}
